@@ -184,3 +184,53 @@ CHECKS["C06"] = _c06
 check.NONTRIVIAL["C06"] = ("paired", "a run compared with the previous run of the same problem (same process or another process)")
 META["C06"] = _m("Each generated problem is solved 4 times in one process on fresh solvers and again in 2 further processes (different hasher seeds and addresses); the 12 executions of a problem are placed side by side in one trace and TLC requires every execution to show the same verdict, solution sequence, rendered message and provider call sequence as its predecessor.", "6 C06", "TLA+ trace validation (TLC) of side-by-side executions (pair rule in Trace_Solve.tla)",
                  note="Decided over sampled pairs of executions: TLC cannot enumerate hash seeds. Trusted: each process really gets fresh ahash seeds (default runtime-rng).")
+
+
+# ---------------------------------------------------------------------------
+# C16 snapshots
+# ---------------------------------------------------------------------------
+def _c16(prop, tier, seed, t0):
+    check.enable_rules(prop)          # C16 + (via ALSO) C01 C02 C04 for the solves through the snapshot
+    exe = vlib.build_harness("release")
+    wd = vlib.fresh_dir(os.path.join(vlib.WORK, prop))
+    n = 120 if tier == "quick" else 2500
+    allc = os.path.join(wd, "snap.all")
+    total = vlib.gen_cases(exe, allc, "solve:snap", n, seed, "sparse", whitebox=False, render=False)
+    shards = vlib.split_file(allc, 8 if tier == "quick" else 24, wd, "snap")
+    import subprocess
+    import concurrent.futures as cf
+    snaps, solves = [], []
+    for sh in shards:
+        a, b = sh[:-6] + ".snap.trace", sh[:-6] + ".solve.trace"
+        r = subprocess.run([exe, "snap", "--cases", sh, "--out-snap", a, "--out-solve", b, "--seed", str(seed)],
+                           capture_output=True, text=True)
+        if r.returncode != 0:
+            raise vlib.ToolError("vh snap failed: " + r.stderr[-2000:])
+        snaps.append(a)
+        solves.append(b)
+    res = vlib.TraceResult()
+    jobs = [(t, "Trace_Snapshot.tla", "Trace_Snapshot.cfg") for t in snaps] + \
+           [(t, "Trace_Solve.tla", "Trace_Solve.cfg") for t in solves]
+    with cf.ThreadPoolExecutor(max_workers=12) as ex:
+        for (fails, covers, begins, st), (t, mod, _c) in zip(
+                ex.map(lambda j: vlib.validate_trace(j[0], j[1], j[2], tag=prop), jobs), jobs):
+            res.fails += fails
+            for (_i, _k, tags) in covers:
+                for tg in tags:
+                    res.cover[tg] += 1
+            if mod == "Trace_Snapshot.tla":
+                res.runs += len(begins)
+            res.states += st["distinct"]
+            res.transitions += st["states"]
+    res.traces = snaps
+    return check.finish_trace_check(prop, tier, seed, res, t0, total,
+                                    {"solves_through_snapshot_compared": res.cover.get("paired", 0),
+                                     "version_sets_added": res.cover.get("added", 0)})
+
+
+CHECKS["C16"] = _c16
+check.ALSO["C16"] = ["C02_VerdictDiffers", "C02_UnsatButSatisfiable", "C04_Panic", "C01_V_RootReq", "C01_V_RootCons",
+                     "C01_V_Known", "C01_V_Req", "C01_V_Cons", "C01_V_Excluded", "C01_V_Locked", "C01_V_OnePerName",
+                     "C01_DupInSolution"]
+check.NONTRIVIAL["C16"] = ("captured", "a snapshot was captured and interrogated")
+META["C16"] = _m("For generated providers with sparse, shuffled ids and random seed choices (names / version sets / solvables, the highest-numbered version set included), TLC compares the captured id sets with the closure Snapshot!Capture and every answer of the SnapshotProvider (candidates, exclusions, preference order, matching / non-matching lists, dependency records with union members in order) with the live universe; ids returned by add_package_requirement must be fresh and every captured version set must answer unchanged afterwards; the problem is solved live and through the snapshot (before and after a serde round trip) and TLC requires equal verdicts and solutions valid against the live data.", "6 C16", "TLA+ trace validation (TLC) of SnapshotProvider answers against Snapshot.tla; paired solves")
